@@ -197,6 +197,13 @@ class kFlowDecomp(pathmodel.AbstractPathModelDAG):
         self.optimize_with_greedy = self.optimization_options.get("optimize_with_greedy", kFlowDecomp.optimize_with_greedy)
         self.optimize_with_flow_safe_paths = self.optimization_options.get("optimize_with_flow_safe_paths", kFlowDecomp.optimize_with_flow_safe_paths)
         
+        # Constraints are used below, before the parent class validates them: their shape is checked here
+        if self.subpath_constraints is not None and not all(
+            isinstance(constraint, list) and all(isinstance(edge, tuple) and len(edge) == 2 for edge in constraint)
+            for constraint in self.subpath_constraints
+        ):
+            utils.logger.error(f"{__name__}: subpath_constraints must be a list of lists of edges, where each edge is a tuple of two nodes.")
+            raise ValueError("subpath_constraints must be a list of lists of edges, where each edge is a tuple of two nodes.")
         # We can apply the greedy algorithm only if 
         # - there are no edges to ignore (in the original input graph), and 
         # - the graph satisfies flow conservation
